@@ -1,4 +1,5 @@
 import Ruint.Lemmas.LehmerFrom
+import Ruint.Lemmas.LehmerExtra
 import Ruint.Lemmas.Gcd
 import Ruint.Lemmas.GcdExt
 
@@ -86,24 +87,32 @@ theorem from_u64_spec (r0 r1 : ℕ) (hle : r1 ≤ r0) (hW : r0 < W) :
         ∧ m.1 ≤ r0 ∧ m.2.1 ≤ r0 ∧ m.2.2.1 ≤ r0 ∧ m.2.2.2.1 ≤ r0) :=
   fromU64_spec r0 r1 hle hW
 
-/-- **`from_u128_prefix`** on a value of more than one word: meets the contract on `(r0, r1)` itself. -/
-theorem from_u128_prefix_spec (r0 r1 : ℕ) (h64 : 64 ≤ bitLen r0) (h128 : r0 < 2 ^ 128) (hle : r1 ≤ r0) (hr1 : 0 < r1) :
-    ∃ m, fromU128Prefix r0 r1 = some m ∧ contract r0 r1 m = true := by
-  have hr0 : r0 ≠ 0 := by omega
-  have hn : bitLen r0 ≤ 128 := by
-    by_contra hc
-    push Not at hc
-    obtain ⟨l1, _, _⟩ := bitLen_pos_range r0 hr0
-    have : 2 ^ 128 ≤ 2 ^ (bitLen r0 - 1) := Nat.pow_le_pow_right (by norm_num) (by omega)
-    omega
-  obtain ⟨e, h63, hW⟩ := fromU128Prefix_eq r0 r1 (bitLen r0) rfl h64 hn hle
-  obtain ⟨K, hK⟩ : ∃ K, K = 2 ^ (bitLen r0 - 64) := ⟨_, rfl⟩
-  rw [← hK] at e h63 hW
-  have hKpos : 0 < K := by rw [hK]; exact Nat.pow_pos (by norm_num)
-  obtain ⟨m, hm, hc⟩ := fromU64Prefix_contract (r0 / K) (r1 / K) K (r0 % K) (r1 % K) h63 hW
-    (Nat.div_le_div_right hle) hKpos (Nat.mod_lt _ hKpos) (Nat.mod_lt _ hKpos)
-  rw [Nat.div_add_mod' r0 K, Nat.div_add_mod' r1 K] at hc
-  exact ⟨m, by rw [e]; exact hm, hc⟩
+/-- **`from_u128_prefix`**: for every `0 < r1 ≤ r0 < 2^128` (also values shorter than a word, which `Matrix::from`
+    never passes) it does not panic and the result meets the contract on `(r0, r1)`. -/
+theorem from_u128_prefix_spec (r0 r1 : ℕ) (h128 : r0 < 2 ^ 128) (hle : r1 ≤ r0) (hr1 : 0 < r1) :
+    ∃ m, fromU128Prefix r0 r1 = some m ∧ contract r0 r1 m = true :=
+  fromU128Prefix_contract r0 r1 h128 hle hr1
+
+/-- `from_u128_prefix` panics (dev profile) exactly on `r0 < r1` (`debug_assert!`) and on `r0 = 0`
+    (`r0 << 128`: shift overflow; it feeds a word without top bit to `from_u64_prefix` otherwise). -/
+theorem from_u128_prefix_panics (r0 r1 : ℕ) (h : r0 < r1 ∨ r0 = 0) : fromU128Prefix r0 r1 = none := by
+  unfold fromU128Prefix
+  rcases h with h | h
+  · rw [if_pos h]
+  · subst h; split <;> rfl
+
+/-- the model's loop in `from_u64_prefix` is left through its own exit test (`a3 < LIMIT`), never through fuel
+    exhaustion: the packed model equals the half-step model with a fuel for which the half-step loop has terminated. -/
+theorem from_u64_prefix_loop_exits (a0 a1 : ℕ) (h63 : 2 ^ 63 ≤ a0) (hW : a0 < W) (hle : a1 ≤ a0) :
+    ∃ fuel, fromU64Prefix a0 a1 = some (Lh.prefixM LIMIT fuel a0 a1)
+      ∧ (LIMIT ≤ a1 → LIMIT ≤ a0 - a0 / a1 * a1 → (Lh.loop LIMIT fuel (Lh.initSt a0 a1)).a3 < LIMIT) :=
+  Lh.fromU64Prefix_eq' a0 a1 h63 hW hle
+
+/-- the `debug_assert!`s inside `from_u64_prefix` (`a2 < a3` after the rotation, `a2 >= LIMIT`, `a2 >= v2`, `a2 >= u2`)
+    hold in every state satisfying the loop invariant. -/
+theorem from_u64_prefix_debug_asserts (A0 A1 : ℕ) (s : Lh.St) (ag : ℤ) (h : Lh.Inv A0 A1 LIMIT s ag)
+    (hA : A0 < W) (hAle : A1 ≤ A0) : s.a3 < s.a2 ∧ LIMIT ≤ s.a2 ∧ s.v2 ≤ s.a2 ∧ s.u2 ≤ s.a2 :=
+  Lh.inv_asserts A0 A1 LIMIT s ag h (by rw [← Lh.W_eq_LL]; exact hA) hAle
 
 /-- **`apply`**: on a matrix meeting the contract the wrapping arithmetic is exact — no panic in `Uint::from`, and the
     wrapped results are the true integers `m·(a, b)`. -/
@@ -126,6 +135,14 @@ theorem apply_u128_spec (a b : ℕ) (m : Mat) (ha : a < 2 ^ 128) (hba : b ≤ a)
   split
   · next hs => rw [if_pos hs] at h1; exact Option.some.inj h1
   · next hs => rw [if_neg hs] at h1; exact Option.some.inj h1
+
+/-- **`compose`** (no contract in the property; evidence): as long as the `u64` entries of the product do not
+    overflow, the composed matrix acts as `m ∘ n` on every integer pair. -/
+theorem compose_spec (m n : Mat)
+    (h0 : m.1 * n.1 + m.2.1 * n.2.2.1 < W) (h1 : m.1 * n.2.1 + m.2.1 * n.2.2.2.1 < W)
+    (h2 : m.2.2.1 * n.1 + m.2.2.2.1 * n.2.2.1 < W) (h3 : m.2.2.1 * n.2.1 + m.2.2.2.1 * n.2.2.2.1 < W) (x y : ℤ) :
+    applyZ (compose m n) x y = applyZ m (applyZ n x y).1 (applyZ n x y).2 :=
+  compose_applyZ m n h0 h1 h2 h3 x y
 
 /-! ## 2. gcd -/
 
